@@ -551,6 +551,8 @@ def run(ctx, out, tier):
     shared.sh_traverse(ctx, out)
     shared.sh_units(ctx, out)
     check_sametext(ctx, out)
+    from rules.C10 import check_tagoffset
+    check_tagoffset(ctx, out, rule="C03.tagoffset")
     return meta()
 
 
